@@ -2,7 +2,7 @@
 from .. import sweepprops as S
 
 LEVEL = 'proof'
-NEEDS = ['Bridge', 'BridgeProofs', 'Base', 'Digraph', 'DSep', 'DSepProofs', 'CorrDag']
+NEEDS = ['SFSepSet', 'Extracted', 'SourceFacts', 'Moral', 'MoralProofs', 'Bridge', 'BridgeProofs', 'Base', 'Digraph', 'DSep', 'DSepProofs', 'CorrDag']
 
 
 def check(run, tier, seed):
